@@ -276,3 +276,36 @@ pub fn k_module_iter() {
     kani::cover!(!is_mod[0] && is_mod[1]);
     kani::cover!(!is_mod[0] && !is_mod[1]);
 }
+
+// ---- C05/C17: the accessor does not look past the DECLARED size.  Declared size
+// SIZE with a string part of concrete non-NUL ASCII bytes; the padding up to the next
+// 8-byte boundary and the neighbouring tag are symbolic: whatever they contain (a NUL
+// in particular) the result is MissingNul.  Unwinding 26 covers a scan of the whole region,
+// so an accessor that reads the padded extent or beyond fails the assertion, not the bound.
+fn no_nul_inside_declared<const SIZE: usize>() {
+    let mut bytes = AlignedBytes(kani::any::<[u8; 32]>());
+    bytes.0[0..4].copy_from_slice(&3u32.to_le_bytes());
+    bytes.0[4..8].copy_from_slice(&(SIZE as u32).to_le_bytes());
+    let mut i = 16;
+    while i < SIZE {
+        bytes.0[i] = b'a' + (i as u8 % 7);
+        i += 1;
+    }
+    let b = &bytes.0;
+    let generic = DynSizedStructure::<TagHeader>::ref_from_slice(&b[..round8(SIZE)]).unwrap();
+    let tag = generic.cast::<ModuleTag>();
+    let r = tag.cmdline();
+    assert!(matches!(r, Err(StringError::MissingNul(_))));
+    kani::cover!(b[SIZE] == 0);
+    kani::cover!(b[round8(SIZE)] == 0);
+}
+#[kani::proof]
+#[kani::unwind(26)]
+pub fn k_module_padding_nul_not_counted_a() {
+    no_nul_inside_declared::<19>();
+}
+#[kani::proof]
+#[kani::unwind(26)]
+pub fn k_module_padding_nul_not_counted_b() {
+    no_nul_inside_declared::<21>();
+}
